@@ -228,4 +228,14 @@ PPConserves == LET FC == FinalCalls IN
   PPDetermined(FC) => /\ PPStop(FC) = Len(FC)                                 \* every call is reached
                       /\ Expand(PPItems(FC), FC) = [k \in 1..n |-> k]
 
+(* The sink - standard output, or the -html page for the "render" items - may stop taking bytes from
+   its f-th item on.  The command then reports the failed write: exit status 0 is only given when
+   every item was delivered, wherever the dump stands (the end of the input included: F15, F16).
+   The replay observes f = 1 (output, resp. page, on /dev/full).                                    *)
+PPDelivered(FC, f) == LET it == PPItems(FC) IN SubSeq(it, 1, IF f - 1 < Len(it) THEN f - 1 ELSE Len(it))
+PPStatusSink(FC, f) == IF f <= Len(PPItems(FC)) THEN 1 ELSE PPStatus(FC)
+PPExitZeroMeansDelivered == LET FC == FinalCalls IN
+  PPDetermined(FC) => \A f \in 1..(Len(PPItems(FC)) + 1) :
+      PPStatusSink(FC, f) = 0 => PPDelivered(FC, f) = PPItems(FC)
+
 =============================================================================
